@@ -19,7 +19,7 @@ ASSUME = ['numba kernels, numpy trusted', 'table values positive (1e-40..1), nei
           'outside the grid only the bracket/non-negativity/finite invariants are demanded (the statement does not fix the formula there)']
 
 PATTERNS = ['generic', 'incT', 'decT', 'saddle', 'flat', 'wide', 'tiny']
-LAYOUTS = ['xsec', 'k1', 'k2', 'k3']
+LAYOUTS = ['xsec', 'k1', 'k2', 'k3', 'k2v']      # k2v: two g-points, table exposed as a non-contiguous transposed view
 WNREQ = ['none', 'full', 'sub', 'single', 'desc', 'bands']
 
 
@@ -91,7 +91,8 @@ def build(case, x):
     else:
         ng = int(case['layout'][1])
         w = np.array([0.2, 0.5, 0.3])[:ng]
-        op = fx.TinyK('H2O', wn, Tg_, np.array(Pg, dtype=float), x, w / w.sum(), case['mode'], keep_dtype=keep)
+        op = fx.TinyK('H2O', wn, Tg_, np.array(Pg, dtype=float), x, w / w.sum(), case['mode'], keep_dtype=keep,
+                      stored='pTgw' if case['layout'].endswith('v') else 'pTwg')
     return op, Tg, Pg, np.array(wn)
 
 
